@@ -5,10 +5,15 @@ usage: seedcheck.py <ID> <K> [check ids...]   (default check: <ID>)
 import json, os, re, shutil, subprocess, sys, time
 ID, K = sys.argv[1], sys.argv[2]
 checks = sys.argv[3:] or [ID]
-src = f'/tmp/seedout/{ID}'
+# round 1 seeds live in /tmp/seedout/<ID>/ (K = 1,2), round 2 in /tmp/seed2/<ID>/ and are stored as K+2;
+# a seed already stored under /verif/seeded/<ID>-<K>/ is re-validated from there.
+SRCROOT = os.environ.get('SEEDSRC', '/tmp/seedout')
+KOUT = str(int(K) + int(os.environ.get('KOFFSET', '0')))
+src = f'{SRCROOT}/{ID}'
 if not os.path.exists(f'{src}/patch{K}.diff'):
     src = f'/verif/seeded/{ID}-{K}'
     patch = f'{src}/patch.diff'
+    KOUT = K
 else:
     patch = f'{src}/patch{K}.diff'
 env = dict(os.environ, GOFLAGS='-mod=mod', GOPROXY='off', GOSUMDB='off', GOTOOLCHAIN='local')
@@ -16,7 +21,7 @@ def sh(cmd, cwd=None, timeout=1800):
     p = subprocess.run(cmd, shell=True, cwd=cwd, env=env, capture_output=True, text=True, timeout=timeout)
     return p.returncode, p.stdout + p.stderr
 res = {'id': ID, 'k': K}
-wt = f'/tmp/sv_{ID}_{K}'
+wt = f'/tmp/sv_{ID}_{KOUT}'
 sh(f'git -C /repo worktree remove --force {wt}')
 rc, out = sh(f'git -C /repo worktree add --detach {wt} HEAD')
 assert rc == 0, out
@@ -73,7 +78,7 @@ try:
         res['checks'][c] = {'exit': rc, 'violations': len(viol), 'wall_s': round(time.time() - t, 1), 'first': [f[:300] for f in first], 'tail': out.splitlines()[-1][:300] if out else ''}
 finally:
     sh('git -C /repo checkout -- .')
-outdir = f'/verif/seeded/{ID}-{K}'
+outdir = f'/verif/seeded/{ID}-{KOUT}'
 os.makedirs(outdir, exist_ok=True)
 open(f'{outdir}/patch.diff', 'w').write(diff)
 if demo and not demo.startswith(outdir): shutil.copy(demo, f'{outdir}/demo_test.go')
